@@ -13,10 +13,12 @@ package memory
 //@ macro stored(m *MemoryKV, k string) bool = m.s.keys[hashOf(m, k)] && m.s.m[hashOf(m, k)] != nil && m.s.m[hashOf(m, k)].keys[k]
 //@ macro rec(m *MemoryKV, k string) *kvValue = m.s.m[hashOf(m, k)].m[k]
 //@ macro recOK(v *kvValue) bool = v != nil && allocated(v) && v.children != nil && allocated(v.children) && v.simple.v != nil
-//@ macro repOK(m *MemoryKV) bool = m.s != nil && (forall h uint64 {m.s.m[h]} :: m.s.keys[h] ==> (m.s.m[h] != nil && allocated(m.s.m[h])))
+//@ macro repCore(m *MemoryKV) bool = m.s != nil && (forall h uint64 {m.s.m[h]} :: m.s.keys[h] ==> (m.s.m[h] != nil && allocated(m.s.m[h]) && h < 281474976710656))
 //@      && (forall h uint64, k string {m.s.m[h].m[k]} :: (m.s.keys[h] && m.s.m[h].keys[k]) ==> (recOK(m.s.m[h].m[k]) && hashOf(m, k) == h))
-//@      && (forall h1, h2 uint64 {m.s.m[h1], m.s.m[h2]} :: (m.s.keys[h1] && m.s.keys[h2] && m.s.m[h1] == m.s.m[h2]) ==> h1 == h2)
+// no two hashes share an inner map and no two keys share a record (needed only where the store is updated)
+//@ macro repInj(m *MemoryKV) bool = (forall h1, h2 uint64 {m.s.m[h1], m.s.m[h2]} :: (m.s.keys[h1] && m.s.keys[h2] && m.s.m[h1] == m.s.m[h2]) ==> h1 == h2)
 //@      && (forall h1, h2 uint64, k1, k2 string {m.s.m[h1].m[k1], m.s.m[h2].m[k2]} :: (m.s.keys[h1] && m.s.m[h1].keys[k1] && m.s.keys[h2] && m.s.m[h2].keys[k2] && m.s.m[h1].m[k1] == m.s.m[h2].m[k2]) ==> k1 == k2)
+//@ macro repOK(m *MemoryKV) bool = repCore(m) && repInj(m)
 
 //@ func newValueFunc() (v *kvValue)
 //@   ensures fresh-empty-record: v != nil && fresh(v) && v.children != nil && fresh(v.children) && v.simple.v != nil && fresh(v.simple.v) && deref(v.simple.v, "[]byte") == nil && v.lease.v == 0
@@ -28,9 +30,12 @@ package memory
 
 //@ func (m *MemoryKV) fetchVal(key []byte) (v *kvValue, loaded bool)
 //@   opt puredyn=content
-//@   opt frame=off
-//@   requires repOK(m)
-//@   ensures representation-kept: repOK(m)
+//@   use ids48hash
+//@   modifies m.s.keys, m.s.m, m.s.m[hashOf(m, str(key))].keys, m.s.m[hashOf(m, str(key))].m
+//@   requires rep: repCore(m)
+//@   requires inj: repInj(m)
+//@   ensures representation-kept: repCore(m)
+//@   ensures injectivity-kept: repInj(m)
 //@   ensures record-of-the-key: stored(m, str(key)) && v == rec(m, str(key)) && recOK(v)
 //@   ensures existing-record-is-returned: old(stored(m, str(key))) ==> v == old(rec(m, str(key)))
 //@   ensures new-record-is-empty: !old(stored(m, str(key))) ==> (fresh(v) && fresh(v.children) && fresh(v.simple.v) && deref(v.simple.v, "[]byte") == nil && v.lease.v == 0 && (forall c string :: !v.children.keys[c]))
@@ -163,3 +168,191 @@ package memory
 //@   ensures other-children-unchanged: forall c string :: c != str(needle) ==> (hasChild(m, str(prefix), c) == (old(stored(m, str(prefix))) && old(hasChild(m, str(prefix), c))))
 //@   ensures simple-and-lease-of-the-key-untouched: old(stored(m, str(prefix))) ==> (leaseOf(m, str(prefix)) == old(leaseOf(m, str(prefix))) && simpleOf(m, str(prefix)) == old(simpleOf(m, str(prefix))))
 //@   ensures other-keys-unchanged: otherKeysKept(m, str(prefix))
+
+// ---- C17: transfer primitives
+
+//@ macro emptyRec(v *kvValue) bool = deref(v.simple.v, "[]byte") == nil && card(v.children.keys) == 0 && v.lease.v == 0
+
+//@ func (v *kvValue) isDeleted() (r bool)
+//@   requires recOK(v)
+//@   ensures deleted-means-nothing-stored: r == emptyRec(v)
+
+//@ func (m *MemoryKV) deleteAll(key []byte)
+//@   opt puredyn=content
+//@   modifies m.s.m[hashOf(m, str(key))].keys
+//@   requires repOK(m)
+//@   ensures representation-kept: repOK(m)
+//@   ensures key-gone: !stored(m, str(key))
+//@   ensures other-keys-kept: otherKeysKept(m, str(key)) && onlyRecordTouched(nil)
+//@   ensures nothing-appears: forall k string {rec(m, k)} :: stored(m, k) ==> old(stored(m, k))
+
+//@ func (m *MemoryKV) RemoveKeys(ctx context.Context, keys [][]byte) (err error)
+//@   opt puredyn=content
+//@   opt frame=off
+//@   requires repOK(m)
+//@   ensures representation-kept: repOK(m)
+//@   ensures never-fails: err == nil
+//@   ensures listed-keys-gone: forall i int :: 0 <= i && i < len(keys) ==> !stored(m, str(keys[i]))
+//@   ensures unlisted-keys-kept: forall k string {rec(m, k)} :: (old(stored(m, k)) && (forall i int :: 0 <= i && i < len(keys) ==> str(keys[i]) != k)) ==> (stored(m, k) && rec(m, k) == old(rec(m, k)))
+//@   ensures nothing-appears: forall k string {rec(m, k)} :: stored(m, k) ==> old(stored(m, k))
+//@   ensures record-contents-untouched: onlyRecordTouched(nil)
+//@   loop key: invariant idx: -1 <= rangeindex && rangeindex < len(keys) && repOK(m) && unchanged(keys)
+//@   loop key: invariant gone: forall i int :: 0 <= i && i <= rangeindex ==> !stored(m, str(keys[i]))
+//@   loop key: invariant kept: forall k string {rec(m, k)} :: (old(stored(m, k)) && (forall i int :: 0 <= i && i <= rangeindex ==> str(keys[i]) != k)) ==> (stored(m, k) && rec(m, k) == old(rec(m, k)))
+//@   loop key: invariant nothing-appears: forall k string {rec(m, k)} :: stored(m, k) ==> old(stored(m, k))
+//@   loop key: invariant contents: onlyRecordTouched(nil)
+
+// RangeKeys: exactly the stored, non-empty keys whose hash lies in (low, high] (everything when low == high)
+//@ macro inRange(m *MemoryKV, k string, low uint64, high uint64) bool = stored(m, k) && !emptyRec(rec(m, k)) && chord.between48(low, hashOf(m, k), high, true)
+
+//@ func (m *MemoryKV) RangeKeys$1$1(key string, v *kvValue) (cont bool)
+//@   opt frame=off
+//@   opt strings=abstract
+//@   requires recOK(v) && 0 <= len(keys)
+//@   ensures always-continues: cont
+//@   ensures empty-record-is-skipped: emptyRec(v) ==> keys == old(keys)
+//@   ensures appends-one-entry: !emptyRec(v) ==> (len(keys) == old(len(keys)) + 1 && fresh(keys[old(len(keys))]) && allocated(keys[old(len(keys))]) && str(keys[old(len(keys))]) == key)
+//@   ensures earlier-entries-kept: len(keys) >= old(len(keys)) && (forall a int {keys[a]} :: 0 <= a && a < old(len(keys)) ==> keys[a] == old(keys[a]))
+//@   ensures backing-kept-or-fresh: sameBacking(keys, old(keys)) || fresh(keys)
+//@   ensures existing-bytes-untouched: keptArrays("byte")
+
+//@ func (m *MemoryKV) RangeKeys(ctx context.Context, low, high uint64) (r [][]byte, err error)
+//@   opt puredyn=content
+//@   opt frame=off
+//@   opt opaque=between48,dist48
+//@   use ids48hash
+//@   requires repCore(m) && low < 281474976710656 && high < 281474976710656
+//@   ensures never-fails: err == nil
+//@   ensures only-keys-in-range: forall a int {r[a]} :: 0 <= a && a < len(r) ==> inRange(m, str(r[a]), low, high)
+//@   at step $1/call Range#1: assert hint-entry-is-stored-under-this-hash: hashOf(m, rangeKey) == id && stored(m, rangeKey) && rec(m, rangeKey) == rangeVal
+//@   at step $1/call Range#1: assert hint-entry-hash-is-in-range: chord.between48(low, hashOf(m, rangeKey), high, true)
+//@   loop call Range#1: invariant own: fresh(keys) && 0 <= len(keys) && (forall a int {keys[a]} :: 0 <= a && a < len(keys) ==> allocated(keys[a]))
+//@   loop call Range#1: invariant sound: forall a int {keys[a]} :: 0 <= a && a < len(keys) ==> inRange(m, str(keys[a]), low, high)
+//@   loop $1/call Range#1: invariant own: fresh(keys) && 0 <= len(keys) && (forall a int {keys[a]} :: 0 <= a && a < len(keys) ==> allocated(keys[a])) && m.s.keys[id] && kMap == m.s.m[id] && chord.between48(low, id, high, true)
+//@   loop $1/call Range#1: invariant sound: forall a int {keys[a]} :: 0 <= a && a < len(keys) ==> inRange(m, str(keys[a]), low, high)
+
+// second contract of RangeKeys: completeness (every key in range is listed), with a ghost position witness
+//@ func (m *MemoryKV) RangeKeys@complete(ctx context.Context, low, high uint64) (r [][]byte, err error)
+//@   opt puredyn=content
+//@   opt frame=off
+//@   opt opaque=between48,dist48
+//@   use ids48hash
+//@   requires repCore(m) && low < 281474976710656 && high < 281474976710656
+//@   ghost pos gmap[string]int
+//@   at step $1/call Range#1: ghost pos[rangeKey] := old(len(keys))
+//@   ensures every-key-in-range-is-listed: forall k string {pos[k]} :: inRange(m, k, low, high) ==> (0 <= pos[k] && pos[k] < len(r) && str(r[pos[k]]) == k)
+//@   loop call Range#1: invariant own: fresh(keys) && 0 <= len(keys) && (forall a int {keys[a]} :: 0 <= a && a < len(keys) ==> allocated(keys[a]))
+//@   loop call Range#1: invariant complete: forall k string {pos[k]} :: (inRange(m, k, low, high) && visited[hashOf(m, k)]) ==> (0 <= pos[k] && pos[k] < len(keys) && str(keys[pos[k]]) == k)
+//@   loop $1/call Range#1: invariant own: fresh(keys) && 0 <= len(keys) && (forall a int {keys[a]} :: 0 <= a && a < len(keys) ==> allocated(keys[a])) && m.s.keys[id] && kMap == m.s.m[id] && visitedOuter[id]
+//@   loop $1/call Range#1: invariant complete: forall k string {pos[k]} :: (inRange(m, k, low, high) && visitedOuter[hashOf(m, k)] && (hashOf(m, k) == id ==> visited[k])) ==> (0 <= pos[k] && pos[k] < len(keys) && str(keys[pos[k]]) == k)
+
+// ListKeys: one entry per kind of data present under each stored key with the prefix.
+// The per-record callback is summarized by its own contract; the two iterations are proved against it.
+//@ macro nSimple(v *kvValue) int = (len(deref(v.simple.v, "[]byte")) > 0 ? 1 : 0)
+//@ macro nPrefix(v *kvValue) int = (card(v.children.keys) > 0 ? 1 : 0)
+//@ macro nLease(v *kvValue) int = (v.lease.v != 0 ? 1 : 0)
+
+//@ func (m *MemoryKV) ListKeys$1$1(key string, v *kvValue) (cont bool)
+//@   opt frame=off
+//@   opt strings=abstract
+//@   requires recOK(v) && 0 <= len(keys)
+//@   ensures always-continues: cont
+//@   ensures other-prefix-adds-nothing: !hasPrefix(key, str(prefix)) ==> keys == old(keys)
+//@   ensures earlier-entries-kept: len(keys) >= old(len(keys)) && (forall a int {keys[a]} :: 0 <= a && a < old(len(keys)) ==> keys[a] == old(keys[a]))
+//@   ensures one-entry-per-kind-present: hasPrefix(key, str(prefix)) ==> len(keys) == old(len(keys)) + nSimple(v) + nPrefix(v) + nLease(v)
+//@   ensures new-entries-name-this-key: forall a int :: (old(len(keys)) <= a && a < len(keys)) ==> (keys[a] != nil && fresh(keys[a]) && allocated(keys[a]) && fresh(keys[a].Key) && allocated(keys[a].Key) && str(keys[a].Key) == key)
+//@   ensures simple-entry-first: (hasPrefix(key, str(prefix)) && nSimple(v) == 1) ==> keys[old(len(keys))].Type == protocol.KeyComposite_SIMPLE
+//@   ensures prefix-entry-next: (hasPrefix(key, str(prefix)) && nPrefix(v) == 1) ==> keys[old(len(keys)) + nSimple(v)].Type == protocol.KeyComposite_PREFIX
+//@   ensures lease-entry-last: (hasPrefix(key, str(prefix)) && nLease(v) == 1) ==> keys[old(len(keys)) + nSimple(v) + nPrefix(v)].Type == protocol.KeyComposite_LEASE
+//@   ensures only-kinds-that-are-present: forall a int :: (old(len(keys)) <= a && a < len(keys)) ==> ((keys[a].Type == protocol.KeyComposite_SIMPLE && nSimple(v) == 1) || (keys[a].Type == protocol.KeyComposite_PREFIX && nPrefix(v) == 1) || (keys[a].Type == protocol.KeyComposite_LEASE && nLease(v) == 1))
+//@   ensures backing-kept-or-fresh: sameBacking(keys, old(keys)) || fresh(keys)
+//@   ensures existing-entries-untouched: (forall e *protocol.KeyComposite {e.Type} :: !fresh(e) ==> e.Type == old(e.Type)) && (forall e *protocol.KeyComposite {e.Key} :: !fresh(e) ==> e.Key == old(e.Key)) && keptArrays("byte")
+//@   ensures store-untouched: prefix == old(prefix)
+
+//@ macro listed(m *MemoryKV, e *protocol.KeyComposite, prefix string) bool = e != nil && stored(m, str(e.Key)) && hasPrefix(str(e.Key), prefix)
+//@      && (e.Type == protocol.KeyComposite_SIMPLE ==> len(simpleOf(m, str(e.Key))) > 0)
+//@      && (e.Type == protocol.KeyComposite_PREFIX ==> card(rec(m, str(e.Key)).children.keys) > 0)
+//@      && (e.Type == protocol.KeyComposite_LEASE ==> leaseOf(m, str(e.Key)) != 0)
+//@      && (e.Type == protocol.KeyComposite_SIMPLE || e.Type == protocol.KeyComposite_PREFIX || e.Type == protocol.KeyComposite_LEASE)
+
+//@ func (m *MemoryKV) ListKeys(ctx context.Context, prefix []byte) (r []*protocol.KeyComposite, err error)
+//@   opt puredyn=content
+//@   opt frame=off
+//@   requires repCore(m)
+//@   ensures never-fails: err == nil
+//@   ensures only-present-data-is-listed: forall a int {r[a]} :: 0 <= a && a < len(r) ==> listed(m, r[a], str(prefix))
+//@   at step $1/call Range#1: assert hint-entry-is-stored-under-this-hash: hashOf(m, rangeKey) == rangeKeyOuter && stored(m, rangeKey) && rec(m, rangeKey) == rangeVal
+//@   loop call Range#1: invariant own: fresh(keys) && 0 <= len(keys) && (forall a int {keys[a]} :: 0 <= a && a < len(keys) ==> (allocated(keys[a]) && allocated(keys[a].Key)))
+//@   loop call Range#1: invariant sound: forall a int {keys[a]} :: 0 <= a && a < len(keys) ==> listed(m, keys[a], str(prefix))
+//@   loop $1/call Range#1: invariant own: fresh(keys) && 0 <= len(keys) && m.s.keys[rangeKeyOuter] && kMap == m.s.m[rangeKeyOuter] && (forall a int {keys[a]} :: 0 <= a && a < len(keys) ==> (allocated(keys[a]) && allocated(keys[a].Key)))
+//@   loop $1/call Range#1: invariant sound: forall a int {keys[a]} :: 0 <= a && a < len(keys) ==> listed(m, keys[a], str(prefix))
+
+// second contract: every kind of data present under a stored key with the prefix is listed
+//@ func (m *MemoryKV) ListKeys@complete(ctx context.Context, prefix []byte) (r []*protocol.KeyComposite, err error)
+//@   opt puredyn=content
+//@   opt frame=off
+//@   requires repCore(m)
+//@   ghost posS gmap[string]int
+//@   ghost posP gmap[string]int
+//@   ghost posL gmap[string]int
+//@   at step $1/call Range#1: assert hint-entry-is-stored-under-this-hash: hashOf(m, rangeKey) == rangeKeyOuter && stored(m, rangeKey) && rec(m, rangeKey) == rangeVal
+//@   at step $1/call Range#1: ghost posS[rangeKey] := old(len(keys))
+//@   at step $1/call Range#1: ghost posP[rangeKey] := old(len(keys)) + nSimple(rec(m, rangeKey))
+//@   at step $1/call Range#1: ghost posL[rangeKey] := old(len(keys)) + nSimple(rec(m, rangeKey)) + nPrefix(rec(m, rangeKey))
+//@   ensures simple-values-are-listed: forall k string {posS[k]} :: (stored(m, k) && hasPrefix(k, str(prefix)) && len(simpleOf(m, k)) > 0) ==> (0 <= posS[k] && posS[k] < len(r) && r[posS[k]].Type == protocol.KeyComposite_SIMPLE && str(r[posS[k]].Key) == k)
+//@   ensures prefixes-are-listed: forall k string {posP[k]} :: (stored(m, k) && hasPrefix(k, str(prefix)) && card(rec(m, k).children.keys) > 0) ==> (0 <= posP[k] && posP[k] < len(r) && r[posP[k]].Type == protocol.KeyComposite_PREFIX && str(r[posP[k]].Key) == k)
+//@   ensures leases-are-listed: forall k string {posL[k]} :: (stored(m, k) && hasPrefix(k, str(prefix)) && leaseOf(m, k) != 0) ==> (0 <= posL[k] && posL[k] < len(r) && r[posL[k]].Type == protocol.KeyComposite_LEASE && str(r[posL[k]].Key) == k)
+//@   loop call Range#1: invariant own: fresh(keys) && 0 <= len(keys) && (forall a int {keys[a]} :: 0 <= a && a < len(keys) ==> (allocated(keys[a]) && keys[a] != nil && allocated(keys[a].Key)))
+//@   loop call Range#1: invariant simple: forall k string {posS[k]} :: (stored(m, k) && visited[hashOf(m, k)] && hasPrefix(k, str(prefix)) && len(simpleOf(m, k)) > 0) ==> (0 <= posS[k] && posS[k] < len(keys) && keys[posS[k]].Type == protocol.KeyComposite_SIMPLE && str(keys[posS[k]].Key) == k)
+//@   loop call Range#1: invariant prefix: forall k string {posP[k]} :: (stored(m, k) && visited[hashOf(m, k)] && hasPrefix(k, str(prefix)) && card(rec(m, k).children.keys) > 0) ==> (0 <= posP[k] && posP[k] < len(keys) && keys[posP[k]].Type == protocol.KeyComposite_PREFIX && str(keys[posP[k]].Key) == k)
+//@   loop call Range#1: invariant lease: forall k string {posL[k]} :: (stored(m, k) && visited[hashOf(m, k)] && hasPrefix(k, str(prefix)) && leaseOf(m, k) != 0) ==> (0 <= posL[k] && posL[k] < len(keys) && keys[posL[k]].Type == protocol.KeyComposite_LEASE && str(keys[posL[k]].Key) == k)
+//@   loop $1/call Range#1: invariant own: fresh(keys) && 0 <= len(keys) && m.s.keys[rangeKeyOuter] && kMap == m.s.m[rangeKeyOuter] && visitedOuter[rangeKeyOuter] && (forall a int {keys[a]} :: 0 <= a && a < len(keys) ==> (allocated(keys[a]) && keys[a] != nil && allocated(keys[a].Key)))
+//@   loop $1/call Range#1: invariant simple: forall k string {posS[k]} :: (stored(m, k) && visitedOuter[hashOf(m, k)] && (hashOf(m, k) == rangeKeyOuter ==> visited[k]) && hasPrefix(k, str(prefix)) && len(simpleOf(m, k)) > 0) ==> (0 <= posS[k] && posS[k] < len(keys) && keys[posS[k]].Type == protocol.KeyComposite_SIMPLE && str(keys[posS[k]].Key) == k)
+//@   loop $1/call Range#1: invariant prefix: forall k string {posP[k]} :: (stored(m, k) && visitedOuter[hashOf(m, k)] && (hashOf(m, k) == rangeKeyOuter ==> visited[k]) && hasPrefix(k, str(prefix)) && card(rec(m, k).children.keys) > 0) ==> (0 <= posP[k] && posP[k] < len(keys) && keys[posP[k]].Type == protocol.KeyComposite_PREFIX && str(keys[posP[k]].Key) == k)
+//@   loop $1/call Range#1: invariant lease: forall k string {posL[k]} :: (stored(m, k) && visitedOuter[hashOf(m, k)] && (hashOf(m, k) == rangeKeyOuter ==> visited[k]) && hasPrefix(k, str(prefix)) && leaseOf(m, k) != 0) ==> (0 <= posL[k] && posL[k] < len(keys) && keys[posL[k]].Type == protocol.KeyComposite_LEASE && str(keys[posL[k]].Key) == k)
+
+// PrefixList: exactly the children of the prefix, each once (the per-child callback has its own contract)
+//@ func (m *MemoryKV) PrefixList$1(value string) (cont bool)
+//@   opt frame=off
+//@   opt strings=abstract
+//@   requires 0 <= len(children)
+//@   ensures always-continues: cont
+//@   ensures appends-one-entry: len(children) == old(len(children)) + 1 && (forall a int {children[a]} :: 0 <= a && a < old(len(children)) ==> children[a] == old(children[a]))
+//@   ensures the-entry-is-this-child: fresh(children[old(len(children))]) && allocated(children[old(len(children))]) && str(children[old(len(children))]) == value
+//@   ensures backing-kept-or-fresh: sameBacking(children, old(children)) || fresh(children)
+//@   ensures existing-bytes-untouched: keptArrays("byte")
+
+//@ func (m *MemoryKV) PrefixList(ctx context.Context, prefix []byte) (r [][]byte, err error)
+//@   opt puredyn=content
+//@   opt strings=abstract
+//@   opt frame=off
+//@   requires rep: repCore(m)
+//@   requires inj: repInj(m)
+//@   ensures never-fails: err == nil
+//@   ensures representation-kept: repCore(m)
+//@   ensures injectivity-kept: repInj(m)
+//@   ensures the-prefix-has-a-record: stored(m, str(prefix)) && (old(stored(m, str(prefix))) ==> rec(m, str(prefix)) == old(rec(m, str(prefix))))
+//@   ensures other-keys-unchanged: otherKeysKept(m, str(prefix))
+//@   ensures no-key-appears-except-the-prefix: forall k string {rec(m, k)} :: (k != str(prefix) && stored(m, k)) ==> old(stored(m, k))
+//@   ensures record-contents-untouched: onlyRecordTouched(nil)
+//@   ensures existing-lists-untouched: keptArrays("byte") && keptArrays("[]byte")
+//@   loop call Range#1: invariant own: fresh(children) && 0 <= len(children)
+
+// second contract of PrefixList: the listing itself (the injectivity part of the invariant is not needed for it)
+//@ func (m *MemoryKV) PrefixList@listing(ctx context.Context, prefix []byte) (r [][]byte, err error)
+//@   opt puredyn=content
+//@   opt strings=abstract
+//@   opt frame=off
+//@   opt forget=inj,injectivity-kept
+//@   requires rep: repCore(m)
+//@   requires inj: repInj(m)
+//@   ghost pos gmap[string]int
+//@   at step call Range#1: ghost pos[rangeKey] := old(len(children))
+//@   ensures result-is-fresh: fresh(r) && 0 <= len(r) && (forall a int {r[a]} :: 0 <= a && a < len(r) ==> (fresh(r[a]) && allocated(r[a])))
+//@   ensures only-children-are-listed: forall a int {r[a]} :: 0 <= a && a < len(r) ==> hasChild(m, str(prefix), str(r[a]))
+//@   ensures every-child-is-listed: forall c string {pos[c]} :: hasChild(m, str(prefix), c) ==> (0 <= pos[c] && pos[c] < len(r) && str(r[pos[c]]) == c)
+//@   ensures absent-prefix-lists-nothing: !old(stored(m, str(prefix))) ==> len(r) == 0
+//@   loop call Range#1: invariant own: fresh(children) && 0 <= len(children) && (forall a int {children[a]} :: 0 <= a && a < len(children) ==> (fresh(children[a]) && allocated(children[a])))
+//@   loop call Range#1: invariant sound: forall a int {children[a]} :: 0 <= a && a < len(children) ==> (v.children.keys[str(children[a])] && visited[str(children[a])])
+//@   loop call Range#1: invariant complete: forall c string {pos[c]} :: visited[c] ==> (0 <= pos[c] && pos[c] < len(children) && str(children[pos[c]]) == c)
+//@   loop call Range#1: invariant empty-if-new: !old(stored(m, str(prefix))) ==> (forall c string :: !v.children.keys[c])
